@@ -86,6 +86,7 @@ RULES = {
     "R57f": _get(DPR, "r57_flatten"),
     "R57i": _get(DPR, "r57_index"),
     "R55k": _get(KR, "r55_ctors"),
+    "R55l": _get(KR, "r55_layers"),
     "R17": RR.r17_eq_fields,
     "R20": RR.r20_ownership_edges,
     "R8": _get(OR, "r8_attach_iff_tracked"),
@@ -136,19 +137,19 @@ RULES = {
 PROPERTY_RULES = {
     "C01": ["R9", "R8", "R5", "R27", "R6", "R24", "R11", "R25", "R23", "R26", "R45", "R10", "R33", "R12", "R13", "R15", "R29", "R31", "R32", "R39", "R51"],
     "C02": ["R12", "R13", "R15", "R9", "R33", "R29", "R31", "R30", "R32", "R39", "R11", "R45", "R51", "R57e", "R57m", "R57c", "R57r"],
-    "C03": ["R11", "R21", "R55f", "R57f"],
+    "C03": ["R11", "R21", "R31", "R55f", "R57f"],
     "C04": ["R40", "R41", "R47", "R54", "R55e", "R57e"],
     "C05": ["R36", "R38", "R40c", "R41", "R49", "R55m", "R57m"],
     "C06": ["R37", "R30", "R55c", "R57c"],
     "C07": ["R35", "R16", "R32", "R55p", "R57r"],
     "C08": ["R1", "R2", "R3", "R4", "R7", "R50"],
-    "C09": ["R8", "R9", "R10", "R5", "R24", "R47", "R14t", "R56"],
+    "C09": ["R8", "R9", "R10", "R5", "R24", "R47", "R14t", "R56", "R23"],
     "C10": ["R23", "R20", "R25", "R9", "R11", "R10", "R26", "R24", "R44", "R53"],
     "C11": ["R24", "R5", "R27", "R6", "R26", "R9", "R25"],
     "C12": ["R5", "R27", "R3", "R6", "R7", "R17", "R23", "R47"],
     "C13": ["R21", "R22", "R28", "R42", "R43", "R46", "R48", "R53", "R23"],
     "C14": ["R21", "R28", "R22", "R20", "R24", "R23", "R42", "R43", "R9", "R46", "R52"],
-    "C15": ["R34", "R30"],
+    "C15": ["R34", "R30", "R55l"],
     "C16": ["R16", "R3", "R17", "R41", "R55k", "R57i"],
     "C17": ["R13", "R14", "R26", "R44"],
     "C18": ["R20", "R21", "R7", "R8", "R16l", "R9", "R14t"],
@@ -178,7 +179,8 @@ EXPLANATION = {
            "slot per operand (R9). Does NOT decide that the Jacobian is the right one.",
     "C03": "Clause-level static verdict: shape typestate (R11) proves that every value entering a pending-delta or gradient slot "
            "has been reduced to the owner's dimensions, for the first and every later contribution; R21 adds that the optimizer "
-           "builds parameters from the parameter's own dimensions. Does NOT decide the summed values.",
+           "builds parameters from the parameter's own dimensions; R31 that no derivative closure reduces the adjoint itself (the summing of "
+           "broadcast contributions happens once, in the engine, on the finished contribution). Does NOT decide the summed values.",
     "C04": "Clause-level static verdict: element_wise_dimensions pairs the dimension vectors from the last dimension, refuses exactly the pairs "
            "that are neither equal nor 1 and takes the pairwise maximum (condition and update decided on the finite grid of orderings); add, "
            "subtract, multiply, divide and axpy apply exactly their scalar operation per element (forward maps in an exact algebra); and every "
@@ -205,7 +207,8 @@ EXPLANATION = {
            "change what an existing handle shows.",
     "C09": "Clause-level static verdict: result attached iff some recorded operand is tracked, by exhaustive Boolean evaluation of "
            "each constructor's guard (R8); slot i gated on operand i (R9); flag writers and the stop/restore pairing in backward "
-           "(R10); flags are per-handle values copied by Clone (R5). Does NOT decide run-time flag values during a pass.",
+           "(R10); flags are per-handle values copied by Clone (R5); gradient slots are written by the engine and the documented accessors only, so "
+           "no flag accessor or constructor empties or fills one (R23). Does NOT decide run-time flag values during a pass.",
     "C10": "Clause-level static verdict: only the engine touches counters/deltas/gradient slots (R23), a pending delta cannot be read "
            "without being emptied (R20d), the gradient slot adds (R25), every counted operand is delivered to (R9), in the owner's "
            "shape (R11); tracking flags are restored after the derivative call (R10), counters move only under the protocol's guards (R24) and "
